@@ -20,6 +20,7 @@ type ReplayCase struct {
 	Label   string         `json:"label"`
 	Inputs  []InputVal     `json:"inputs"`
 	Params  map[string]int `json:"params"`
+	PBytes  map[string][]byte `json:"pbytes,omitempty"`
 }
 
 type ReplayResult struct {
